@@ -105,6 +105,22 @@ def call_graph(repo: Repo, fns: Dict[Tuple[str, str], Fn]) -> Dict[Tuple[str, st
             if isinstance(n, ast.Call) and isinstance(n.func, ast.Attribute) and n.func.attr in ("visit", "visit_children", "visit_topdown", "transform"):
                 g[key] |= set(visitor_methods)
                 break
+    # dispatch through the function table: whoever resolves a function by name (`resolve_function(..)`,
+    # `functions[..]`) may call any function the table `base_functions` names (and what those call)
+    try:
+        from .matrix import base_functions as _bf
+
+        table_fns: Set[Tuple[str, str]] = set()
+        for v in _bf(repo).values():
+            for x in ast.walk(v):
+                nm = x.id if isinstance(x, ast.Name) else (x.attr if isinstance(x, ast.Attribute) else None)
+                if nm and ("evaluation", nm) in fns:
+                    table_fns.add(("evaluation", nm))
+        for key, f in fns.items():
+            if any((isinstance(n, ast.Call) and isinstance(n.func, ast.Attribute) and n.func.attr == "resolve_function") for n in ast.walk(f.node)):
+                g[key] |= table_fns
+    except Exception:  # noqa: BLE001  (the table could not be read: C13/C14 report that)
+        pass
     return g
 
 
